@@ -25,7 +25,7 @@ def tables(flip):
         if (_h(ln) % 3 != 0) != flip:
             defs[ln] = VALUES[_h(ln) % len(VALUES)]
         if (_h(n) % 2 == 0) != flip:
-            env[n] = VALUES[(_h(n) // 2) % len(VALUES)] + "E"
+            env[n] = (VALUES[(_h(n) // 2) % len(VALUES)] + "E") if _h(n) % 7 else ""      # some variables are set but EMPTY
     return defs, env
 
 
